@@ -200,6 +200,12 @@ def strategy(tier):
         st.fixed_dictionaries({"op": st.just("reverse")}),
         st.fixed_dictionaries({"op": st.just("copy")}),
         st.fixed_dictionaries({"op": st.just("clear")}),
+        # look-ups by value: an equal configuration that is not a member, or the member at some index (maybe with an equal
+        # twin before it) - judged against a built-in list holding the very same item objects
+        st.fixed_dictionaries({"op": st.just("lookup"), "what": st.sampled_from(["remove", "remove", "index", "count", "contains"]),
+                               "arg": st.sampled_from(["twin", "member"]), "v": st.integers(0, 3), "j": st.integers(0, 5)}),
+        st.fixed_dictionaries({"op": st.just("lookup"), "what": st.sampled_from(["remove", "remove", "index", "count", "contains"]),
+                               "arg": st.sampled_from(["twin", "member"]), "v": st.integers(0, 3), "j": st.integers(0, 5)}),
     )
     schema_case = st.fixed_dictionaries({"kind": st.just("schemalist"), "configtype": st.booleans(),
                                          "ops": st.lists(schema_op, min_size=1, max_size=n)})
@@ -232,6 +238,18 @@ def exhaustive(tier):
                     size = len(range(*slice(a, b, step).indices(n)))
                     for k in sorted({0, 1, size, size + 1}):
                         yield {"kind": "list", "item": "int", "init": init, "ops": [{"op": "setslice", "s": (a, b, step), "items": list(range(50, 50 + k)), "ik": "list"}]}
+    yield from exhaustive_lookups()
+
+
+def exhaustive_lookups():
+    """Lists of configurations [0, 1, 0, 2] (two equal items): every look-up by value with an equal non-member / a member."""
+    fill = [{"op": "append", "v": v, "as": how} for v, how in ((0, "dict"), (1, "config"), (0, "config"), (2, "dict"))]
+    for ct in (False, True):
+        for what in ("remove", "index", "count", "contains"):
+            for v in (0, 1, 3):
+                yield {"kind": "schemalist", "configtype": ct, "ops": fill + [{"op": "lookup", "what": what, "arg": "twin", "v": v, "j": 0}]}
+            for j in range(4):
+                yield {"kind": "schemalist", "configtype": ct, "ops": fill + [{"op": "lookup", "what": what, "arg": "member", "v": 0, "j": j}]}
 
 
 def budget(tier):
@@ -706,6 +724,19 @@ def _run_schemalist(case, R):
             rm = _outcome(lambda: M.__delitem__(op["i"]))
         elif name == "reverse":
             ra, rm = _outcome(L.reverse), _outcome(M.reverse)
+        elif name == "lookup":
+            ref = list(L)  # a built-in list over the very same item objects
+            arg = mk(op["v"] % 4, "config") if (op["arg"] == "twin" or not L) else L[op["j"] % len(L)]
+            what = op["what"]
+            R.label("lookup:%s:%s" % (what, op["arg"]))
+            call = {"remove": lambda l: l.remove(arg), "index": lambda l: l.index(arg), "count": lambda l: l.count(arg), "contains": lambda l: arg in l}[what]
+            ra, rb = _outcome(lambda: call(L)), _outcome(lambda: call(ref))
+            R.check(_same_outcome(ra, rb), "return", "ListProxy.%s:schema:by-value" % what, lambda: "%s(%s): proxy -> %r, built-in list of the same items -> %r" % (what, op["arg"], ra, rb))
+            R.check([id(x) for x in L] == [id(x) for x in ref], "contents", "ListProxy.%s:schema:by-value" % what,
+                    lambda: "after %s(%s) the proxy holds items at positions %r of the original, the built-in list %r" % (
+                        what, op["arg"], [i for x in L for i, y in enumerate(ref + [arg]) if y is x][:8], list(range(len(ref)))))
+            M[:] = [cc.asdict(x) for x in ref] if [id(x) for x in L] == [id(x) for x in ref] else snap()
+            ra = rm = ("ok", None)
         elif name == "copy":
             c = L.copy()
             R.check(isinstance(c, cc.ListProxy) and c.item_field is schema.items.field, "typed", "ListProxy.copy:schema", "copy of a config list is not typed")
